@@ -6,6 +6,8 @@ package main
 //   ccr:<acc hex>,<byte>,<n>,<tail hex>    ComputeChecksum over n copies of a byte followed by tail
 //   emit:<L>,<P>,<src>,<dst>,<bytes>       serialize with FixLengths+ComputeChecksums; <bytes> = layer header
 //                                          + payload exactly as expected on the wire, checksum field zero
+//   buf:reuse | buf:dirty,<byte hex>,<n>   the following emit ops of the case share ONE SerializeBuffer (as callers of
+//                                          SerializeLayers do); dirty: first filled with <byte> by PrependBytes(n)+AppendBytes(n), then Clear
 //   ver:<L>,<P>,<src>,<dst>,<bytes>        decode <bytes> as layer L, attach the network layer, VerifyChecksum
 //   flip:...,<bytes>,<bit>                 the same after flipping one bit (byte bit/8, mask 1<<(bit%8))
 //   flips:...,<bytes>,<b1>/<b2>/...        several single-bit flips of the same packet
@@ -268,27 +270,34 @@ func c08build(rng *rand.Rand, l, pk string, plen int) []byte {
 		}
 		b0 |= byte(rng.Intn(8))
 		b1 := byte(rng.Intn(32))<<3&0x78 | byte(rng.Intn(8))
-		if b0&0x40 == 0 && rng.Intn(3) == 0 {
-			b1 |= 0x80 // ack (not together with routing: known C06/C07 GRE defect)
+		if rng.Intn(3) == 0 {
+			b1 |= 0x80 // ack
+		}
+		if c08greForce != 0 { // targeted flag combinations
+			b0 = c08greForce&0xf8 | b0&0x07
+			b1 = b1&0x7f | c08greForceAck
 		}
 		h = []byte{b0, b1, 0x88, 0xb5}
 		if rng.Intn(3) == 0 {
 			h[2], h[3] = byte(rng.Intn(256)), byte(rng.Intn(256))
 		}
+		nz := func() []byte { // non-zero field values: a field written too late or not at all changes the sum
+			return []byte{byte(1 + rng.Intn(255)), byte(1 + rng.Intn(255)), byte(1 + rng.Intn(255)), byte(1 + rng.Intn(255))}
+		}
 		if b0&0xc0 != 0 {
-			h = append(h, 0, 0, byte(rng.Intn(256)), byte(rng.Intn(256)))
+			h = append(h, 0, 0, byte(1+rng.Intn(255)), byte(1+rng.Intn(255)))
 		}
 		if b0&0x20 != 0 {
-			h = append(h, c08randBytes(rng, 4)...)
+			h = append(h, nz()...)
 		}
 		if b0&0x10 != 0 {
-			h = append(h, c08randBytes(rng, 4)...)
+			h = append(h, nz()...)
 		}
 		if b0&0x40 != 0 {
 			h = append(h, 0, 0, 0, 0)
 		}
 		if b1&0x80 != 0 {
-			h = append(h, c08randBytes(rng, 4)...)
+			h = append(h, nz()...)
 		}
 	case "ip4":
 		opts := c08ip4Options(rng)
@@ -430,6 +439,9 @@ func c08op(name, l, pk string, src, dst, bs []byte, extra string) string {
 	}
 	return s
 }
+
+// when non-zero, c08build("gre") uses these flag bits (byte 0 high five bits, ack bit of byte 1)
+var c08greForce, c08greForceAck byte
 
 var c08layers = []string{"udp", "tcp", "icmp4", "icmp6", "ip4", "gre"}
 
@@ -605,6 +617,60 @@ func (c08) Gen(rng *rand.Rand, tier string) []Case {
 			}
 		}
 	}
+	// several packets serialized into ONE buffer (SerializeLayers -> Clear -> next packet), and into a buffer whose
+	// memory was filled with 0xaa / 0xff before: the checksum field and every header field land on leftovers
+	emitOnly := func(l, pk string, plen, tg int) string {
+		src, dst := c08addr(rng, pk)
+		bs := c08build(rng, l, pk, plen)
+		hl := c08hdrLen(l, bs)
+		if tg >= 0 && c08fieldOff(l, bs) >= 0 {
+			cov := bs
+			if l == "ip4" {
+				cov = bs[:hl]
+			}
+			c08solve(l, pk, src, dst, cov, c08solvePos(l, bs, hl), uint16(tg))
+		}
+		if l == "ip4" {
+			bs = bs[:hl]
+		}
+		return c08op("emit", l, pk, src, dst, bs, "")
+	}
+	bufOps := []string{"buf:reuse", "buf:dirty,aa,4096", "buf:dirty,ff,4096", "buf:dirty,01,2048"}
+	nseq := 2
+	if tier == "thorough" {
+		nseq = 12
+	}
+	for r := 0; r < nseq; r++ {
+		for li, l := range c08layers {
+			for _, pk := range c08pseudos(l) {
+				for bi, bo := range bufOps {
+					ops := []string{bo}
+					// first packet: any layer (so that leftovers differ in layout), then the layer under test twice
+					l0 := c08layers[(li+bi+r)%len(c08layers)]
+					pk0 := c08pseudos(l0)[r%len(c08pseudos(l0))]
+					ops = append(ops, emitOnly(l0, pk0, 20+rng.Intn(200), -1))
+					ops = append(ops, emitOnly(l, pk, rng.Intn(120), targets[(bi+r)%len(targets)]))
+					ops = append(ops, emitOnly(l, pk, rng.Intn(1200), targets[(bi+r+2)%len(targets)]))
+					out = append(out, Case{Prop: "C08", Ops: ops})
+				}
+			}
+		}
+	}
+	// GRE flag combinations with non-zero field values, fresh and dirty buffers:
+	// checksum+ack, checksum+routing, checksum+routing+ack, key+seq, checksum+key+seq+ack, all
+	for _, fc := range [][2]byte{{0x80, 0x80}, {0xc0, 0}, {0xc0, 0x80}, {0x30, 0}, {0xb0, 0x80}, {0xf8, 0x80}, {0x88, 0}, {0x40, 0x80}} {
+		c08greForce, c08greForceAck = fc[0], fc[1]
+		for _, bo := range []string{"", "buf:dirty,ff,4096", "buf:reuse"} {
+			var ops []string
+			if bo != "" {
+				ops = append(ops, bo, emitOnly("udp", "4", 64+rng.Intn(64), -1))
+			}
+			ops = append(ops, emitOnly("gre", "n", rng.Intn(60), -1), emitOnly("gre", "n", rng.Intn(60), 0))
+			out = append(out, Case{Prop: "C08", Ops: ops})
+		}
+		out = append(out, c08packetCase(rng, "gre", "n", rng.Intn(30), -1, 56))
+	}
+	c08greForce, c08greForceAck = 0, 0
 	// ICMPv4 with an all-zero sum: the only way a non-UDP emitter writes 0xffff
 	for _, n := range []int{0, 1, 6, 7} {
 		bs := make([]byte, 8+n)
@@ -1078,7 +1144,7 @@ func c08layerFromBytes(l string, bs []byte) (gopacket.SerializableLayer, []byte)
 	return nil, nil
 }
 
-func (c08) runEmit(args []string, res *Result, tags map[string]bool) string {
+func (c08) runEmit(args []string, res *Result, tags map[string]bool, shared gopacket.SerializeBuffer) string {
 	l, pk, src, dst, bs := c08parsePkt(args)
 	cls, csum, same := "ok", "none", 1
 	var out, lbytes []byte
@@ -1096,12 +1162,17 @@ func (c08) runEmit(args []string, res *Result, tags map[string]bool) string {
 			stack = append(stack, nl.(gopacket.SerializableLayer))
 		}
 		stack = append(stack, ly, gopacket.Payload(payload))
-		buf := gopacket.NewSerializeBuffer()
+		buf := shared
+		if buf == nil {
+			buf = gopacket.NewSerializeBuffer()
+		} else {
+			tags["reused-buffer"] = true
+		}
 		if err := gopacket.SerializeLayers(buf, gopacket.SerializeOptions{FixLengths: true, ComputeChecksums: true}, stack...); err != nil {
 			cls = "err"
 			return
 		}
-		out = buf.Bytes()
+		out = append([]byte(nil), buf.Bytes()...)
 		if l == "ip4" {
 			lbytes = out[:len(bs)]
 		} else {
@@ -1224,6 +1295,7 @@ func (c08) runVerify(l, pk string, src, dst, data []byte, what string, res *Resu
 func (h c08) Run(c Case) Result {
 	var res Result
 	tags := map[string]bool{}
+	var shared gopacket.SerializeBuffer // non-nil after a buf: op
 	for _, op := range c.Ops {
 		name, arg, _ := strings.Cut(op, ":")
 		args := strings.Split(arg, ",")
@@ -1273,8 +1345,27 @@ func (h c08) Run(c Case) Result {
 			if f != c08rfc(wide) {
 				res.Oracle = append(res.Oracle, fmt.Sprintf("C08:helpers-rfc1071\t%sFoldChecksum(ComputeChecksum(%d bytes, %#x))=%#04x reference %#04x", wrap, len(data), a, f, c08rfc(wide)))
 			}
+		case "buf":
+			shared = gopacket.NewSerializeBuffer()
+			if args[0] == "dirty" && len(args) == 3 {
+				fb, _ := strconv.ParseUint(args[1], 16, 8)
+				n, _ := strconv.Atoi(args[2])
+				if pre, err := shared.PrependBytes(n); err == nil {
+					for i := range pre {
+						pre[i] = byte(fb)
+					}
+				}
+				if app, err := shared.AppendBytes(n); err == nil {
+					for i := range app {
+						app[i] = byte(fb)
+					}
+				}
+				shared.Clear()
+				tags["dirty-buffer"] = true
+			}
+			res.Obs = append(res.Obs, "buf=1")
 		case "emit":
-			res.Obs = append(res.Obs, h.runEmit(args, &res, tags))
+			res.Obs = append(res.Obs, h.runEmit(args, &res, tags, shared))
 		case "ver":
 			l, pk, src, dst, bs := c08parsePkt(args)
 			v := h.runVerify(l, pk, src, dst, bs, "ver", &res, tags)
